@@ -518,38 +518,89 @@ fn events_background_case(pre: &'static str, line: &'static str, ok: bool, want:
     core::mem::forget(st);
 }
 
-fn events_background_lines_a() {
-    match kani::any::<u8>() % 8 {
-        0 => events_background_case("old.png", "0,0,\"bg.jpg\",0,0", true, "bg.jpg"),
-        1 => events_background_case("", "Background,0,bg.jpg", true, "bg.jpg"),
-        2 => events_background_case("old.png", "Video,0,\"clip.JPG\"", true, "clip.JPG"),
-        3 => events_background_case("old.png", "1,0,\"clip.mp4\"", true, "old.png"),
-        4 => events_background_case("old.png", "Video,0,\"clip.AVI\"", true, "old.png"),
-        5 => events_background_case("", "Sprite,Background,Centre,\"sb\\\\a.png\",320,240", true, "sb/a.png"),
-        6 => events_background_case("old.png", "4,Background,Centre,\"sb/a.png\",320,240", true, "old.png"),
-        _ => events_background_case("", "Sprite,Background,Centre", false, ""),
-    }
+// One harness per concrete line (a single harness branching over all lines ran out of memory on
+// some seeded changes; per line the run is almost entirely constant-folded).
+// @verif property=C11,C06,C01 tier=quick timeout=600 mem=12 bounds="[Events] concrete line 0: background line replaces the previous background"
+oracle_proof!(c11_ev_line_00, 48, {
+    events_background_case("old.png", "0,0,\"bg.jpg\",0,0", true, "bg.jpg");
     kani::cover!(true, "reached");
-}
-
-fn events_background_lines_b() {
-    match kani::any::<u8>() % 8 {
-        0 => events_background_case("old.png", "Sample,0,0,\"a.wav\",100", true, "old.png"),
-        1 => events_background_case("old.png", "9,0,x", false, "old.png"),
-        2 => events_background_case("old.png", "0,0", false, "old.png"),
-        3 => events_background_case("old.png", "3,100,163,162,255", true, "old.png"),
-        4 => events_background_case("old.png", "Video,0,\"cover\"", true, "cover"),
-        5 => events_background_case("old.png", "1,0,\"intro.xMP4\"", true, "old.png"),
-        6 => events_background_case("old.png", "Video,0,\"na\u{ef}ve\"", true, "na\u{ef}ve"),
-        _ => events_background_case("old.png", "Video,0,\"a.\"", true, "old.png"),
-    }
+});
+// @verif property=C11,C06,C01 tier=quick timeout=600 mem=12 bounds="[Events] concrete line 1: Background by name on an empty background"
+oracle_proof!(c11_ev_line_01, 48, {
+    events_background_case("", "Background,0,bg.jpg", true, "bg.jpg");
     kani::cover!(true, "reached");
-}
+});
+// @verif property=C11,C06,C01 tier=quick timeout=600 mem=12 bounds="[Events] concrete line 2: video with image extension (upper case) is a background"
+oracle_proof!(c11_ev_line_02, 48, {
+    events_background_case("old.png", "Video,0,\"clip.JPG\"", true, "clip.JPG");
+    kani::cover!(true, "reached");
+});
+// @verif property=C11,C06,C01 tier=quick timeout=600 mem=12 bounds="[Events] concrete line 3: real video (mp4) is not a background"
+oracle_proof!(c11_ev_line_03, 48, {
+    events_background_case("old.png", "1,0,\"clip.mp4\"", true, "old.png");
+    kani::cover!(true, "reached");
+});
+// @verif property=C11,C06,C01 tier=quick timeout=600 mem=12 bounds="[Events] concrete line 4: real video, upper-case extension"
+oracle_proof!(c11_ev_line_04, 48, {
+    events_background_case("old.png", "Video,0,\"clip.AVI\"", true, "old.png");
+    kani::cover!(true, "reached");
+});
+// @verif property=C11,C06,C01 tier=quick timeout=600 mem=12 bounds="[Events] concrete line 5: first sprite fills an empty background (path cleaned)"
+oracle_proof!(c11_ev_line_05, 48, {
+    events_background_case("", "Sprite,Background,Centre,\"sb\\\\a.png\",320,240", true, "sb/a.png");
+    kani::cover!(true, "reached");
+});
+// @verif property=C11,C06,C01 tier=quick timeout=600 mem=12 bounds="[Events] concrete line 6: sprite does not replace an existing background"
+oracle_proof!(c11_ev_line_06, 48, {
+    events_background_case("old.png", "4,Background,Centre,\"sb/a.png\",320,240", true, "old.png");
+    kani::cover!(true, "reached");
+});
+// @verif property=C11,C06,C01 tier=quick timeout=600 mem=12 bounds="[Events] concrete line 7: sprite line without file name is rejected"
+oracle_proof!(c11_ev_line_07, 48, {
+    events_background_case("", "Sprite,Background,Centre", false, "");
+    kani::cover!(true, "reached");
+});
+// @verif property=C11,C06,C01 tier=quick timeout=600 mem=12 bounds="[Events] concrete line 8: sample event changes nothing"
+oracle_proof!(c11_ev_line_08, 48, {
+    events_background_case("old.png", "Sample,0,0,\"a.wav\",100", true, "old.png");
+    kani::cover!(true, "reached");
+});
+// @verif property=C11,C06,C01 tier=quick timeout=600 mem=12 bounds="[Events] concrete line 9: unknown event type is rejected"
+oracle_proof!(c11_ev_line_09, 48, {
+    events_background_case("old.png", "9,0,x", false, "old.png");
+    kani::cover!(true, "reached");
+});
+// @verif property=C11,C06,C01 tier=quick timeout=600 mem=12 bounds="[Events] concrete line 10: line with two fields is rejected"
+oracle_proof!(c11_ev_line_10, 48, {
+    events_background_case("old.png", "0,0", false, "old.png");
+    kani::cover!(true, "reached");
+});
+// @verif property=C11,C06,C01 tier=quick timeout=600 mem=12 bounds="[Events] concrete line 11: colour event changes nothing"
+oracle_proof!(c11_ev_line_11, 48, {
+    events_background_case("old.png", "3,100,163,162,255", true, "old.png");
+    kani::cover!(true, "reached");
+});
+// @verif property=C11,C06,C01 tier=quick timeout=600 mem=12 bounds="[Events] concrete line 12: video name without dot: judged by its last three bytes"
+oracle_proof!(c11_ev_line_12, 48, {
+    events_background_case("old.png", "Video,0,\"cover\"", true, "cover");
+    kani::cover!(true, "reached");
+});
+// @verif property=C11,C06,C01 tier=quick timeout=600 mem=12 bounds="[Events] concrete line 13: long extension ending in a video suffix counts as video"
+oracle_proof!(c11_ev_line_13, 48, {
+    events_background_case("old.png", "1,0,\"intro.xMP4\"", true, "old.png");
+    kani::cover!(true, "reached");
+});
+// @verif property=C11,C06,C01 tier=quick timeout=600 mem=12 bounds="[Events] concrete line 14: non-ASCII video name (multi-byte character under the third-from-last byte)"
+oracle_proof!(c11_ev_line_14, 48, {
+    events_background_case("old.png", "Video,0,\"na\u{ef}ve\"", true, "na\u{ef}ve");
+    kani::cover!(true, "reached");
+});
+// @verif property=C11,C06,C01 tier=quick timeout=600 mem=12 bounds="[Events] concrete line 15: video name shorter than three bytes changes nothing"
+oracle_proof!(c11_ev_line_15, 48, {
+    events_background_case("old.png", "Video,0,\"a.\"", true, "old.png");
+    kani::cover!(true, "reached");
+});
 
-// @verif property=C11,C06,C01 tier=quick timeout=1500 mem=24 bounds="[Events] background / video / sprite lines: 8 concrete lines x concrete previous background (precedence rule)"
-oracle_proof!(c11_ev_background_a, 48, events_background_lines_a());
-// @verif property=C11,C06,C01 tier=quick timeout=1500 mem=24 bounds="[Events] other event types, malformed lines, video names without dot / with long extension / non-ASCII / shorter than 3 bytes: 8 concrete lines"
-oracle_proof!(c11_ev_background_b, 48, events_background_lines_b());
 
 /// Colours: R,G,B with optional ignored alpha; wrong field counts and bad numbers are rejected.
 fn colors_line(template: &'static str, fields: usize, named: bool) {
